@@ -479,6 +479,70 @@ impl Family for LargeRequests {
     }
 }
 
+
+/// two multi-packet requests back to back, pipelined, with a read boundary around every packet
+/// header of the second: the reply to the first is owed as soon as the first is complete, even
+/// while the second is only partly there
+struct TwoLargeRequests {
+    cases: Vec<(usize, usize, Vec<usize>)>,
+}
+impl TwoLargeRequests {
+    fn conv(a: usize, b: usize) -> Conv {
+        let ta: Vec<u8> = (0..a - 1).map(|i| b'a' + ((i * 3 + i / 251) % 26) as u8).collect();
+        let tb: Vec<u8> = (0..b - 1).map(|i| b'A' + ((i * 7 + i / 249) % 26) as u8).collect();
+        Conv::new(vec![q(&ta), q(&tb), ping()])
+    }
+    fn new(pairs: &[(usize, usize)]) -> Self {
+        let mut cases = Vec::new();
+        for &(a, b) in pairs {
+            let s = Self::conv(a, b).stream();
+            let mut cands: Vec<usize> = Vec::new();
+            for h in s.headers.iter().filter(|h| **h >= s.ends[1] && **h < s.ends[2]) {
+                for d in [-1i64, 0, 1, 3, 4, 5] {
+                    let p = *h as i64 + d;
+                    if p > s.ends[0] as i64 && (p as usize) < s.ends[2] {
+                        cands.push(p as usize);
+                    }
+                }
+            }
+            cands.sort();
+            cands.dedup();
+            cases.push((a, b, vec![]));
+            for c in cands {
+                cases.push((a, b, vec![c]));
+            }
+        }
+        TwoLargeRequests { cases }
+    }
+}
+impl Family for TwoLargeRequests {
+    fn name(&self) -> String {
+        "two-large-requests-pipelined".into()
+    }
+    fn len(&self) -> u64 {
+        self.cases.len() as u64
+    }
+    fn max_threads(&self) -> Option<usize> {
+        Some(6)
+    }
+    fn run(&self, idx: u64, st: &mut Stats) -> Result<(), Violation> {
+        let (a, b, cuts) = &self.cases[idx as usize];
+        st.nontrivial += 1;
+        st.bump("two_large_requests");
+        let conv = Self::conv(*a, *b);
+        let s = conv.stream();
+        let stream = Arc::new(s.bytes.clone());
+        run_sched(&conv, &s, &stream, &[], cuts.clone(), st).map_err(|mut v| {
+            v.msg = format!("requests of {} and {} payload bytes, cuts {:?}: {}", a, b, cuts, v.msg);
+            v
+        })
+    }
+    fn describe(&self, idx: u64) -> J {
+        let (a, b, cuts) = &self.cases[idx as usize];
+        json!({"request_payload_bytes": [a, b], "cuts": cuts, "client": "pipelined"})
+    }
+}
+
 pub fn build(quick: bool) -> Check {
     let mut families: Vec<Box<dyn Family>> = Vec::new();
     let a = alphabet();
@@ -489,6 +553,7 @@ pub fn build(quick: bool) -> Check {
         families.push(Box::new(SmallComps::new(14)));
         families.push(Box::new(ReplySizes::new(30_000)));
         families.push(Box::new(LargeRequests::new(&[70_000, MAXP - 1, MAXP, 2 * MAXP], 1)));
+        families.push(Box::new(TwoLargeRequests::new(&[(MAXP + 10, MAXP + 10)])));
     } else {
         families.push(Box::new(Batchings { alpha: a.clone(), len: 5, max_cuts: 0 }));
         families.push(Box::new(Batchings { alpha: a.clone(), len: 2, max_cuts: 2 }));
@@ -496,16 +561,17 @@ pub fn build(quick: bool) -> Check {
         families.push(Box::new(SmallComps::new(15)));
         families.push(Box::new(ReplySizes::new(200_000)));
         families.push(Box::new(LargeRequests::new(&[4092, 70_000, MAXP - 1, MAXP, MAXP + 1, 2 * MAXP - 1, 2 * MAXP, 2 * MAXP + 1], 2)));
+        families.push(Box::new(TwoLargeRequests::new(&[(MAXP + 10, MAXP + 10), (MAXP, MAXP), (70_000, 2 * MAXP + 3), (2 * MAXP + 3, MAXP + 1)])));
     }
     Check {
         id: "C12",
         level: "model_checking",
-        rule: "command lists over {query->OK, query->resultset, prepare, execute, long data, close, ping, init db, field list} (after a fixed PREPARE) x all batchings (the client waits for all owed replies at any subset of message boundaries, from lock-step to fully pipelined; it never sends before the greeting) x cut sets of <= 2 positions; plus all 2^n compositions of small pipelined streams; plus a strict lock-step client receiving replies of every size 0..30000 (200000 in thorough) bytes as one cell, and as r rows for every r up to that total with cells of 0, 1, 2, 5, 9, 16, 37, 100, 255, 1000, 1455, 1456, 1459, 1460 and 4000 bytes (output-side buffering thresholds are approached in many strides); plus a strict lock-step client whose request is 70 KB .. 2*(2^24-1) bytes (exact multiples with their empty closing packet included) under <= 1 (thorough: 2) cuts around every packet header and the last six bytes of the request. Invariant at every read(): the flushed output holds a complete reply (strictly decoded) for every message fully delivered so far. A read while the waiting client holds back its bytes is a hang.".into(),
+        rule: "command lists over {query->OK, query->resultset, prepare, execute, long data, close, ping, init db, field list} (after a fixed PREPARE) x all batchings (the client waits for all owed replies at any subset of message boundaries, from lock-step to fully pipelined; it never sends before the greeting) x cut sets of <= 2 positions; plus all 2^n compositions of small pipelined streams; plus a strict lock-step client receiving replies of every size 0..30000 (200000 in thorough) bytes as one cell, and as r rows for every r up to that total with cells of 0, 1, 2, 5, 9, 16, 37, 100, 255, 1000, 1455, 1456, 1459, 1460 and 4000 bytes (output-side buffering thresholds are approached in many strides); plus a strict lock-step client whose request is 70 KB .. 2*(2^24-1) bytes (exact multiples with their empty closing packet included) under <= 1 (thorough: 2) cuts around every packet header and the last six bytes of the request; two multi-packet requests back to back, pipelined, with a cut around every packet header of the second. Invariant at every read(): the flushed output holds a complete reply (strictly decoded) for every message fully delivered so far. A read while the waiting client holds back its bytes is a hang.".into(),
         assumptions: vec!["bytes written but not flushed are invisible to the simulated client".into()],
         bounds: json!({"max_commands": if quick {4} else {5}, "max_cuts": 2}),
         exhaustive: true,
         caps_hit: vec![],
         families,
-        required: vec!["mixed_pipelining", "fully_pipelined", "lock_step", "small_compositions", "reply_sizes", "large_requests_lock_step"],
+        required: vec!["mixed_pipelining", "fully_pipelined", "lock_step", "small_compositions", "reply_sizes", "large_requests_lock_step", "two_large_requests"],
     }
 }
